@@ -438,7 +438,7 @@ class ExprGen:
         ch = [("atom", 6)]
         if d < 3:
             ch += [("union", 4), ("alias", 2), ("paren", 1), ("nonnull", 1), ("exclude", 1), ("extract", 1), ("index-array", 1), ("index-tuple", 1),
-                   ("index-prop", 1), ("index-member", 2), ("intersection", 1), ("iface", 2), ("objlit", 2), ("index-unresolvable", 1)]
+                   ("index-prop", 1), ("index-member", 2), ("intersection", 1), ("iface", 2), ("objlit", 2), ("index-unresolvable", 1), ("bool-string", 2)]
         k = r.wpick(ch)
         self.tg.used["ty:" + k] += 1
         if k == "atom":
@@ -477,6 +477,21 @@ class ExprGen:
                 # a rest element: `[A, ...B[]][1]` is B, `[A, ...B[]][number]` is A | B
                 return "[%s, ...(%s)[]]%s" % (self.expr(d + 1), self.expr(d + 1), r.pick(["[0]", "[1]", "[number]"]))
             return "[%s, %s]%s" % (self.expr(d + 1), self.expr(d + 1), r.pick(["[0]", "[1]", "[number]"]))
+        if k == "bool-string":
+            # Vue's boolean casting depends on the ORDER of Boolean and String in `type`: both orders, with other members and a nullish member in
+            # front / between / behind, bare and under NonNullable / Exclude / parentheses / an alias
+            ms = r.pick([["boolean", "string"], ["string", "boolean"]]) + r.pick([[], ["number"], ["Date"], ["'lit'"]])
+            if r.chance(0.5):
+                ms.insert(r.below(len(ms) + 1), r.pick(["null", "undefined", "void"]))
+            elif r.chance(0.5):
+                ms = [r.pick(["null", "undefined"])] + ms
+            u = " | ".join(ms)
+            w = r.wpick([("%s", 3), ("NonNullable<%s>", 4), ("Exclude<%s, null>", 1), ("(%s)", 1), ("alias", 1)])
+            if w == "alias":
+                n = self.tg.fresh("T")
+                self.tg.place("type %s = %s;" % (n, u))
+                return "NonNullable<%s>" % n
+            return w % u
         if k == "index-unresolvable":
             # an indexed access the resolver cannot follow (an imported object type, a `keyof` index): whatever is emitted must not be a check
             # that NO value passes (`type: []`)
